@@ -341,10 +341,22 @@ func checkLongestArgmax(p *load.Program, r *kit.Report, workF *types.Var) {
 		case isElem(in.v):
 			dRep, _ := kit.DominatedByEdges(f, in.last, []kit.Edge{replace}, nil, p.Pos)
 			dNil, _ := kit.DominatedByEdges(f, in.last, edgesOf(nilGs, true), nil, p.Pos)
+			// `result == nil || cand > inc`: one install block behind either edge
+			dEither, _ := kit.DominatedByEdges(f, in.last, append([]kit.Edge{replace}, edgesOf(nilGs, true)...), nil, p.Pos)
+			fromRep := inLoop(in.pred) && kit.Reach(f, []kit.Pt{kit.EdgeStart(replace)}, kit.Opts{StopAt: kit.InstrSet(resPhi.Block().Instrs[0])}).Has(in.last)
 			switch {
 			case dRep:
 				viaReplace++
 			case dNil:
+				// (the first element always takes the nil edge; later ones may come through the
+				// greater-work edge into the same install block)
+				if fromRep {
+					viaReplace++
+				}
+			case dEither && inLoop(in.pred):
+				if fromRep {
+					viaReplace++
+				}
 			case !inLoop(in.pred):
 				// the selection starts as an element before the loop: must be the first one
 				ia := in.v.(*ssa.UnOp).X.(*ssa.IndexAddr)
@@ -797,6 +809,29 @@ func checkWorkFlow(p *load.Program, r *kit.Report, funcs []*ssa.Function, workF 
 				for _, op := range c.Call.Args[1:] {
 					if loadOfField(op, workF) {
 						sawPred = true
+					} else if ph, isPhi := kit.Strip(op).(*ssa.Phi); isPhi {
+						// the predecessor's work, or a fresh zero when there is no predecessor
+						loads, okAll := 0, true
+						for _, e := range ph.Edges {
+							switch {
+							case loadOfField(e, workF):
+								loads++
+							default:
+								if al, isAlloc := kit.Strip(e).(*ssa.Alloc); isAlloc {
+									for _, ref := range *al.Referrers() {
+										if c, isCall := ref.(*ssa.Call); isCall && len(c.Call.Args) > 0 && c.Call.Args[0] == ssa.Value(al) &&
+											bigMutating[strings.TrimPrefix(kit.CallID(c), bigInt+".")] {
+											okAll = false
+										}
+									}
+								} else {
+									okAll = false
+								}
+							}
+						}
+						if okAll && loads > 0 {
+							sawPred = true
+						}
 					}
 					if cw := isCallTo(op, load.BitcoinPkg+".ConvertToWork"); cw != nil && m == "Add" {
 						if cd := isCallTo(cw.Call.Args[0], load.BitcoinPkg+".ConvertToDifficulty"); cd != nil && loadOfField(cd.Call.Args[0], bitsF) {
